@@ -67,6 +67,11 @@ def judge(rep, op, served_status, how_served, raise_flag, variant, obs, tag) -> 
     return out
 
 
+def _snake(name: str) -> str:
+    from openapi_python_client import utils
+    return str(utils.PythonIdentifier(name, ""))
+
+
 def families(rep, d) -> None:
     S = endpoint.S
     out_ref = {"$ref": "#/components/schemas/Out"}
@@ -83,6 +88,10 @@ def families(rep, d) -> None:
                         200, "application/json", b'{"w": "x"}', "model:Other", {"w": "x"}),
         "charset": ({"200": {"description": "d", "content": {"application/json; charset=utf-8": {"schema": out_ref}}}}, 200, "application/json; charset=utf-8", b'{"v": 9}', "model:Out", {"v": 9}),
         "textthenjson": ({"200": {"description": "d", "content": {"text/plain": {"schema": S}, "application/json": {"schema": out_ref}}}}, 200, "text/plain", b"plain words", "text", "plain words"),
+        # text media types with a declared charset, followed (in document order) by ones without: non-ASCII bodies must be decoded per response
+        "csvlatin1": ({"200": {"description": "d", "content": {"text/csv; charset=iso-8859-1": {"schema": S}}}}, 200, "text/csv; charset=iso-8859-1", "na\u00efve;caf\u00e9".encode("iso-8859-1"), "text", "na\u00efve;caf\u00e9"),
+        "plainutf8": ({"200": {"description": "d", "content": {"text/plain": {"schema": S}}}}, 200, "text/plain; charset=utf-8", "na\u00efve \u2713 \u65e5\u672c".encode(), "text", "na\u00efve \u2713 \u65e5\u672c"),
+        "plainnocharset": ({"200": {"description": "d", "content": {"text/plain": {"schema": S}}}}, 200, "text/plain", "na\u00efve \u2713".encode(), "text", "na\u00efve \u2713"),
         "texthtml": ({"200": {"description": "d", "content": {"text/html": {"schema": S}}}}, 200, "text/html", b"<p>x</p>", "text", "<p>x</p>"),
         "twostatus": ({"200": {"description": "d", "content": {"application/json": {"schema": out_ref}}}, "404": {"description": "d", "content": {"application/json": {"schema": {"$ref": "#/components/schemas/Other"}}}}},
                       404, "application/json", b'{"w": "nf"}', "model:Other", {"w": "nf"}),
@@ -100,6 +109,17 @@ def families(rep, d) -> None:
     if g["exc"] or g["rejected"]:
         rep.violate("C04/families-crash", (g["exc"] or str(g["diags"][:1]))[-300:])
         return
+    # no cross-talk between operations: the module of an operation does not depend on which operations were parsed before it
+    rdoc = gen.mkdoc(paths=dict(reversed(list(paths.items()))), components=comps)
+    g2 = gen.generate(rdoc, d / "rfamrev")
+    if not (g2["exc"] or g2["rejected"]):
+        for name in fam:
+            a = (d / "rfam" / "api" / "t" / f"{_snake(name)}.py")
+            b = (d / "rfamrev" / "api" / "t" / f"{_snake(name)}.py")
+            rep.count(1, ("family-order", name))
+            if a.exists() and b.exists() and a.read_bytes() != b.read_bytes():
+                rep.violate(f"C04/family/{name}/depends-on-other-operations", f"the module generated for {name} differs when the document's paths are listed in reverse order "
+                            "(what was parsed before leaks into it)", name=name)
     calls = []
     for name, (responses, status, ctype, body, kind, value) in fam.items():
         for variant in ("sync_detailed", "sync", "asyncio_detailed", "asyncio"):
@@ -133,7 +153,7 @@ def run(rep) -> None:
     quick = rep.tier == "quick"
     d = scratch("c04-")
     try:
-        res = endpoint.enumerate_universe("response", 0, d)[0]
+        res = endpoint.enumerate_universe("response", 0, d, max_resp=3 if quick else 5)[0]
         rep.tlc(res)
         if res.violated:
             rep.notes.append(f"TLC(Endpoint): {sorted(set(res.violated))}: {res.counterexample[:300]}")
@@ -192,7 +212,7 @@ def run(rep) -> None:
         rep.sample({"op_responses": cases[11]["op"]["rs"], "served": cases[11]["served"], "raise": cases[11]["raise"], "variant": cases[11]["variant"], "model": cases[11]["result"]})
     finally:
         rmtree(d)
-    rep.rule = ("every set of <=3 documented responses (7-entry menu) x served status (documented + 418) x raise flag x 4 call variants executed against "
+    rep.rule = (f"every set of <={3 if quick else 5} documented responses (7-entry menu) x served status (documented + 418) x raise flag x 4 call variants executed against "
                 "httpx.MockTransport; 9 families (component response, several media types, union of models, charset parameter, text/html, nullable, empty schema)")
     rep.exhaustive = True
     rep.assumptions += ["responses whose schema is the empty schema {} and operations whose return type collapses to Any (no sync()/asyncio()) are observed, not judged"]
